@@ -34,7 +34,7 @@ func init() {
 			"(R06.5) the text of a token is cleanupToken(position in line, word) computed at its own position; (R06.6) the notice patterns are consulted on every path to the token loop; (R06.7) the spelling table is consulted with the cleaned word; (R06.8) a word found in the list-marker table is a marker whatever its closing character; (R06.9) after the line buffer is emptied in the middle of a line the following words carry a non-zero position; (R03.7) Copyright literals; (R06.2) Copyright pseudo-matches are kept apart from the overlap filter - fails today (known finding D12). Regex coverage of notice templates is NOT decided."})
 	register(&Check{ID: "C11", Modules: []string{"v2"}, Run: runC11,
 		Explanation: "Thin structural clauses behind 'Normalize lines up with Match': (R11.1) non-interference: the line counter and every Line stored do not depend on the normalize/updateDict flags; (R11.2) Normalize and match use the same tokenizeStream and Normalize returns memory allocated by the call; (R11.3) the ignorable-line patterns are case-insensitive (Normalize sees un-lowered text); " +
-			"(R11.4) number clean-up cannot leave a trailing dot (idempotence under re-tokenisation); (R11.5) every word Normalize writes out is tested not to be the end-of-line token (sibling consistency: newlines come only from line numbers); (R11.9) Normalize writes a line break for every line a token lies behind the previous one; (R11.6) Normalize returns the text it wrote without trimming its beginning (leading line breaks stand for input lines); (R11.8) the word interned by the word flush went through HTML unescaping on every path, whatever the flags; (R06.7) the spelling table is consulted with the cleaned word; (R11.7) lower-case word tables consulted by the token clean-up (list markers, spelling variants) are consulted with a case-folded key or only when normalising, because Normalize keeps the capital of a word's first letter; (R06.1) word-table idempotence. Header re-cleaning of numbered markers is NOT decided."})
+			"(R11.4) number clean-up cannot leave a trailing dot (idempotence under re-tokenisation); (R11.5) every word Normalize writes out is tested not to be the end-of-line token (sibling consistency: newlines come only from line numbers); (R11.10) whether a line is a notice is also decided on the cleaned-up form of the line, the form Normalize writes; (R11.9) Normalize writes a line break for every line a token lies behind the previous one; (R11.6) Normalize returns the text it wrote without trimming its beginning (leading line breaks stand for input lines); (R11.8) the word interned by the word flush went through HTML unescaping on every path, whatever the flags; (R06.7) the spelling table is consulted with the cleaned word; (R11.7) lower-case word tables consulted by the token clean-up (list markers, spelling variants) are consulted with a case-folded key or only when normalising, because Normalize keeps the capital of a word's first letter; (R06.1) word-table idempotence. Header re-cleaning of numbered markers is NOT decided."})
 	register(&Check{ID: "C17", Modules: []string{""}, Run: runC17,
 		Explanation: "Thin structural clauses behind 'v1 offsets delimit real text': (R17.1) every contribution to a token's Text is the input substring s[i:i+size] at the decoded rune's position, or string(r) only under a guard that excludes the invalid-rune replacement, and Offset is that i - or the Text is one substring s[a:b] with Offset a and b a scan position or len(s); (R17.2) candidate ranges are sorted by target position before they are untangled; " +
 			"(R17.3) the string that is tokenised is the string offsets are later applied to; (R17.5) a path through one iteration of Tokenize's scan loop on which the rune contributes to no token has taken the true branch of unicode.IsSpace(r); (R17.4) a candidate's byte range runs from the Offset of token TargetStart to Offset+len(Text) (bytes) of token TargetEnd-1. Range merging/coalescing bounds are NOT decided."})
@@ -1096,6 +1096,7 @@ func runC11(c *Ctx) {
 		checkNoTrailingDot(c, p, ct)
 	}
 	checkWordTable(c, p)
+	checkNoticeDecisionOnCleanedLine(c, p)
 	checkCaseFoldedLookups(c, p, ts)
 	checkSpellingLookupOnCleanText(c, p)
 	// R11.6 the normalised text is returned as it was written: line k of the result is line k of the input
@@ -1501,6 +1502,84 @@ func checkSpellingLookupOnCleanText(c *Ctx, p *core.Prog) {
 		}
 	}
 	c.R.RequireMin("R06.7", "lookups in the spelling table", n, 1)
+}
+
+// checkNoticeDecisionOnCleanedLine: R11.10. Normalize writes the cleaned-up words of a line. Whether a line is a notice
+// must therefore (also) be decided on that form: some test of the ignorable-text patterns takes a string that is built
+// from the results of the token clean-up. Otherwise a line that is kept as written can be dropped when the normalised
+// text is tokenized again.
+func checkNoticeDecisionOnCleanedLine(c *Ctx, p *core.Prog) {
+	g := p.Global(v2pkg, "ignorableTexts")
+	ct := p.Func(v2pkg, "cleanupToken")
+	if g == nil || ct == nil {
+		return // anchors are reported by R06.6 / R11.4
+	}
+	n := 0
+	for _, fn := range v2Funcs(p) {
+		uses := false
+		for _, b := range fn.Blocks {
+			for _, in := range b.Instrs {
+				if u, ok := in.(*ssa.UnOp); ok && u.X == ssa.Value(g) {
+					uses = true
+				}
+			}
+		}
+		if !uses {
+			continue
+		}
+		var dep func(v ssa.Value, seen map[ssa.Value]bool, depth int) bool
+		dep = func(v ssa.Value, seen map[ssa.Value]bool, depth int) bool {
+			if v == nil || seen[v] || depth > 14 {
+				return false
+			}
+			seen[v] = true
+			if call, ok := v.(*ssa.Call); ok && call.Call.StaticCallee() == ct {
+				return true
+			}
+			// a slice: anything appended to it (loop-carried)
+			if _, isSl := v.Type().Underlying().(*types.Slice); isSl {
+				for m := range sliceFamily(v) {
+					if call, ok := m.(*ssa.Call); ok {
+						if bi, isB := call.Call.Value.(*ssa.Builtin); isB && bi.Name() == "append" && len(call.Call.Args) > 1 {
+							if el := singleVarargElem(call.Call.Args[1]); el != nil && dep(el, seen, depth+1) {
+								return true
+							}
+						}
+					}
+				}
+			}
+			in, ok := v.(ssa.Instruction)
+			if !ok {
+				return false
+			}
+			for _, op := range in.Operands(nil) {
+				if *op != nil && dep(*op, seen, depth+1) {
+					return true
+				}
+			}
+			return false
+		}
+		nTests, onClean := 0, false
+		var pos token.Pos
+		for _, call := range core.CallsIn(fn) {
+			name := core.StaticCalleeName(call.Common())
+			if name != "(*regexp.Regexp).MatchString" && name != "(*regexp.Regexp).Match" {
+				continue
+			}
+			nTests++
+			pos = call.Pos()
+			if dep(call.Common().Args[1], map[ssa.Value]bool{}, 0) {
+				onClean = true
+			}
+		}
+		if nTests == 0 {
+			continue
+		}
+		n++
+		c.R.Check(onClean, "R11.10", core.ShortFn(fn)+": whether a line is a notice is (also) decided on its cleaned-up form", p.Pos(pos), "a pattern test takes the line built from the results of the token clean-up",
+			"the patterns are only tested against the words as written, while Normalize writes the cleaned-up words: a line whose punctuation keeps the patterns from matching (\"Copyright: 2013, ...\", \"2006-01-27.\") is kept by Match but dropped when the normalised text is matched, so the two disagree")
+	}
+	c.R.RequireMin("R11.10", "functions that test the ignorable-text patterns", n, 1)
 }
 
 // checkCaseFoldedLookups: R11.7. Normalize tokenises with normalize=false, which keeps the case of a word's first
